@@ -275,7 +275,14 @@ def k_loop_protocol(prog: Program, rep, RID: str, cname: str, mname: str, starts
         defs = local_single_defs(f.node)
         if not (isinstance(it, ast.Call) and dotted(it.func) == "range" and len(it.args) in (2, 3) and not it.keywords):
             raise AnalysisError(f"{base}: k-loop iterator is not range(lo, hi[, step]): {norm(it)}")
-        start = norm(substitute_locals(it.args[0], defs))
+        start_e = substitute_locals(it.args[0], defs)
+        start = norm(start_e)
+        # max(c, lower bound) with a constant c <= 1 is the lower bound for every admissible k (k >= 1 is required by the k-models)
+        if isinstance(start_e, ast.Call) and dotted(start_e.func) == "max" and len(start_e.args) == 2 and not start_e.keywords:
+            consts = [a for a in start_e.args if isinstance(a, ast.Constant) and isinstance(a.value, int) and a.value <= 1]
+            others = [a for a in start_e.args if a not in consts]
+            if len(consts) == 1 and len(others) == 1 and norm(others[0]) in starts:
+                start = norm(others[0])
         if start in starts or start == "1":
             rep.ok(RID, f"{base}:P1-start", f"search starts at {start}", f.loc(loop))
         else:
